@@ -44,11 +44,30 @@ def _children(t, registry):
     return out
 
 
+PROBE_KEYS = ["wild", "Wild", "w-2", "w_2", "zed", "192.168.0.1", "alpha",
+              "beta", "nosuchkey", "marker", "items", "k1", "main"]
+
+
+def _getinfo_probe(t):
+    """What the type's public getinfo() answers for a fixed vocabulary of
+    key names (declared names, names texts use for wildcard keys, unknown
+    names): part of the schema's description."""
+    out = {}
+    for k in PROBE_KEYS:
+        try:
+            info = t.getinfo(k)
+            out[k] = [type(info).__name__, info.attribute]
+        except Exception as e:  # noqa
+            out[k] = type(e).__name__
+    return out
+
+
 def digest(schema):
     reg = schema.registry
     d = {"types": {}, "url": schema.url,
          "components": list(getattr(schema, "_components", {}).keys()),
-         "top": {"keytype": _dtname(reg, schema.keytype),
+         "top": {"getinfo": _getinfo_probe(schema),
+                 "keytype": _dtname(reg, schema.keytype),
                  "datatype": _dtname(reg, schema.datatype),
                  "handler": schema.handler,
                  "children": _children(schema, reg)}}
@@ -61,6 +80,7 @@ def digest(schema):
                 "implementer_identity": {n: st.name for n, st in t}}
         else:
             d["types"][name] = {
+                "getinfo": _getinfo_probe(t),
                 "kind": "section", "keytype": _dtname(reg, t.keytype),
                 "datatype": _dtname(reg, t.datatype),
                 "valuetype": _dtname(reg, t.valuetype),
